@@ -95,30 +95,37 @@ type Scen struct {
 	Cancel   string            `json:"cancel"`   // none | before | unit | timer | deadline
 	CancelU  string            `json:"cancelu"`  // for unit: "u" or "u:idx" that cancels in its body
 	CancelUs int               `json:"cancelus"` // timer / deadline
-	EffConc  int               `json:"effconc"`  // effective concurrency limit (filled by the driver)
-	EffCoe   bool              `json:"effcoe"`
+	// Hold: "u" or "u:idx" of a user function whose body blocks until the runner releases it; the runner
+	// cancels the context once that body has started and releases it only after the directive has returned
+	// (or after 1.5 s): the directive must return promptly, without waiting for the running function (C09).
+	Hold    string `json:"hold"`
+	EffConc int    `json:"effconc"` // effective concurrency limit (filled by the driver)
+	EffCoe  bool   `json:"effcoe"`
 }
 
 type ctxKey struct{}
 
 // X is the context of one execution of a rendered function.
 type X struct {
-	Exec   int
-	P      *Prog
-	S      *Scen
-	mu     sync.Mutex
-	evs    []Ev
-	n      int64
-	ctx    context.Context
-	cancel context.CancelFunc
-	cbegun bool
-	cdone  bool
-	over   int32
-	errs   map[string]error
-	pvals  map[string]interface{}
-	ferr   map[int]error // leaf -> error passed to FlowError/ParallelError
-	units  map[int]*Unit
-	InBody int32
+	Exec     int
+	P        *Prog
+	S        *Scen
+	mu       sync.Mutex
+	evs      []Ev
+	n        int64
+	ctx      context.Context
+	cancel   context.CancelFunc
+	cbegun   bool
+	cdone    bool
+	over     int32
+	errs     map[string]error
+	pvals    map[string]interface{}
+	ferr     map[int]error // leaf -> error passed to FlowError/ParallelError
+	units    map[int]*Unit
+	InBody   int32
+	holdc    chan struct{}
+	heldc    chan struct{}
+	heldOnce sync.Once
 	// Bare: executions under the race detector that must not synchronise with the generated code: no event
 	// log, no counters; user functions only sleep and return / panic.
 	Bare   bool
@@ -127,7 +134,7 @@ type X struct {
 
 // NewX prepares an execution.
 func NewX(exec int, p *Prog, s *Scen) *X {
-	x := &X{Exec: exec, P: p, S: s, errs: map[string]error{}, pvals: map[string]interface{}{}, ferr: map[int]error{}, units: map[int]*Unit{}}
+	x := &X{Exec: exec, P: p, S: s, holdc: make(chan struct{}), heldc: make(chan struct{}), errs: map[string]error{}, pvals: map[string]interface{}{}, ferr: map[int]error{}, units: map[int]*Unit{}}
 	for i := range p.Units {
 		x.units[p.Units[i].ID] = &p.Units[i]
 	}
@@ -368,6 +375,13 @@ func (x *X) enter(u, idx int, ctx context.Context, toks []int) {
 	}
 	if x.S.Cancel == "unit" && x.S.CancelU == key(u, idx) {
 		x.Cancel()
+	}
+	if x.S.Hold != "" && x.S.Hold == key(u, idx) && !x.Bare {
+		x.heldOnce.Do(func() { close(x.heldc) })
+		select {
+		case <-x.holdc:
+		case <-time.After(4 * time.Second): // never block a body for good
+		}
 	}
 }
 
